@@ -75,8 +75,8 @@ def judge_bound(M, name, x, unit, ret, first):
     bad = []
     if type(ret) is not type(x):
         bad.append("type")
-    elif judge.zkind(ret) != k:
-        bad.append("zone")
+    elif judge.zkind(ret) != k or (k[0] == "fixed" and (ret.tzname(), getattr(ret, "timezone_name", None)) != (x.tzname(), getattr(x, "timezone_name", None))):
+        bad.append("zone")            # "both keep the timezone": kind, offset and - for a named fixed offset - its name
     elif k[0] == "naive" or k[0] == "fixed":
         off = 0 if k[0] == "naive" else k[1]
         lx, lr = label(unit, fields(x), off, ws), label(unit, fields(ret), off, ws)
@@ -414,7 +414,9 @@ def run(M, c):
             xs = [("naive", P.DateTime(*us_to_fields(c["u"])))]
         elif kind == "fixed":
             off = c["u"] % 172799 - 86399
-            xs = [("fixed", P.DateTime(*us_to_fields(c["u"] + off * US), tzinfo=P.tz.timezone.FixedTimezone(off)))]
+            # a third of the fixed-offset values carry a zone object with a name of its own
+            ftz = P.tz.timezone.FixedTimezone(off, name="CUSTOM") if c["u"] % 3 == 0 else P.tz.timezone.FixedTimezone(off)
+            xs = [("fixed", P.DateTime(*us_to_fields(c["u"] + off * US), tzinfo=ftz))]
         else:
             xs = _provenances(M, c["z"], c["u"])
         for unit in c["units"]:
